@@ -7,7 +7,15 @@ prop("C05", "exploration",
      "non-base64 payload, 31- and 33-byte key, line > 64 KiB, trailing text, two entries on one line, arbitrary bytes, BOM; LF or "
      "CRLF; with or without final newline), remove it, put a directory in its place, switch authgrants on/off, add a grant "
      "(user, key, type, times), log in (the decision sequence of hopSession.checkAuthorization executed with the real AuthorizeKey / "
-     "AuthorizeKeyAuthGrant), or call AuthorizeKeyAuthGrant on its own. Oracle after every step: granted => the key is a well-formed "
+     "AuthorizeKeyAuthGrant), or call AuthorizeKeyAuthGrant on its own. A third of the logins do not present a fixture key but a key "
+     "DERIVED from a line of a file the history wrote earlier (mostly the user's own current or removed file, preferring its lines that "
+     "are not canonical entries): the 32 bytes an over-lenient parser could read out of that line - payload taken after the first / "
+     "the last occurrence of the prefix, after the prefix in any case with an optional dash, or as the longest run of base64 characters "
+     "(no prefix); decoded as the leading base64 run without asking for padding or a whole quantum, with every non-base64 character "
+     "skipped, or by the standard decoder with its error ignored; fitted to 32 bytes by zero-padding / cutting on the right or on the "
+     "left (so: zero-padded truncated and 31-byte payloads, the first 32 of 33 or 64 bytes, the key of a commented-out, BOM-prefixed, "
+     "wrong-prefix or trailing-text entry, the second key of a two-entry line); the derived key is judged like any other. "
+     "Oracle after every step: granted => the key is a well-formed "
      "entry of THAT user's current file (reference parser over the file bytes, written from the documented text format) or "
      "authgrants are enabled and an unconsumed grant for exactly (user, key) is in the model; a grant login consumes the pair's "
      "grants, returns exactly those, and the key leaves the transport key set once no stored grant names it; converse only for a "
